@@ -155,4 +155,207 @@ theorem step_ready {s s' : State} {op : Op} {o : Out} (hi : Inv s) (hok : OpOk2 
         exact hi'.cw dt.id dt' hd' p.1 (hk2.2 ▸ hc) t'.state (stOf_of_find hf')
 
 
+/-! ### C06: the history invariant -/
+
+
+/-- the history invariant: `H` = all sends so far, `S` = all starts so far, `U` = all ids submitted so far -/
+structure Hist (s : State) (H S : List (TaskId × Nat)) (U : List TaskId) : Prop where
+  nd : (taskIds s.tasks).Nodup
+  mono : Mono H
+  hi : ∀ p ∈ H, ∀ t ∈ s.tasks, t.id = p.1 → p.2 ≤ t.inst
+  st : St s S
+  ids : ∀ t ∈ s.tasks, t.id ∈ U
+  hids : ∀ p ∈ H, p.1 ∈ U
+  sids : ∀ q ∈ S, q.1 ∈ U
+
+theorem Hist.init : Hist {} [] [] [] :=
+  ⟨List.nodup_nil, List.Pairwise.nil, fun _ h => (by cases h), St.nil _, fun _ h => (by cases h),
+    fun _ h => (by cases h), fun _ h => (by cases h)⟩
+
+theorem Hist.step {s s' : State} {H S : List (TaskId × Nat)} {U : List TaskId} {op : Op} {o : Out}
+    (hh : Hist s H S U) (hfresh : ∀ x ∈ op.newIds, x ∉ U) (h : step s op = .ok (s', o)) :
+    Hist s' (H ++ sends o.msgs) (S ++ starts o.cbs) (U ++ op.newIds) := by
+  obtain ⟨e, tr, st, sx⟩ := step_fx hh.nd h
+  -- a task of `s'` whose id was submitted before descends from a task of `s`
+  have old : ∀ t' ∈ s'.tasks, t'.id ∈ U → ∃ t ∈ s.tasks, TRel False (¬ op.isFailureLoss) t t' := by
+    intro t' ht' hu
+    rcases e t' ht' with h1 | h1
+    · exact h1
+    · exact absurd hu (hfresh _ h1)
+  refine ⟨step_nodup hh.nd h, ?_, ?_, ?_, ?_, ?_, ?_⟩
+  · unfold Mono
+    rw [List.pairwise_append]
+    refine ⟨hh.mono, tr.mono, ?_⟩
+    intro p hp q hq hpq
+    obtain ⟨t, ht, hid, hle, _⟩ := tr.lo q hq
+    exact Nat.le_trans (hh.hi p hp t ht (hid.trans hpq.symm)) hle
+  · intro p hp t' ht' hid
+    rcases List.mem_append.mp hp with h1 | h1
+    · obtain ⟨t, ht, r⟩ := old t' ht' (hid ▸ hh.hids p h1)
+      exact Nat.le_trans (hh.hi p h1 t ht (r.id ▸ hid)) r.inst
+    · exact tr.hi p h1 t' ht' hid
+  · intro q hq t' ht' hid
+    rcases List.mem_append.mp hq with h1 | h1
+    · obtain ⟨t, ht, r⟩ := old t' ht' (hid ▸ hh.sids q h1)
+      -- as in `St.evo`
+      rcases hh.st q h1 t ht (r.id ▸ hid) with h2 | ⟨h2, h3⟩
+      · exact Or.inl (Nat.lt_of_lt_of_le h2 r.inst)
+      · rcases r.lock h3 with h4 | h4
+        · rcases Nat.lt_or_ge t.inst t'.inst with h5 | h5
+          · exact Or.inl (h2 ▸ h5)
+          · exact Or.inr ⟨by have := r.inst; omega, h4⟩
+        · exact Or.inl (h2 ▸ h4)
+    · exact st q h1 t' ht' hid
+  · intro t' ht'
+    rcases e t' ht' with ⟨t, ht, r⟩ | h1
+    · exact List.mem_append_left _ (r.id ▸ hh.ids t ht)
+    · exact List.mem_append_right _ h1
+  · intro p hp
+    rcases List.mem_append.mp hp with h1 | h1
+    · exact List.mem_append_left _ (hh.hids p h1)
+    · obtain ⟨t, ht, hid, _⟩ := tr.lo p h1
+      exact List.mem_append_left _ (hid ▸ hh.ids t ht)
+  · intro q hq
+    rcases List.mem_append.mp hq with h1 | h1
+    · exact List.mem_append_left _ (hh.sids q h1)
+    · obtain ⟨t, ht, hid⟩ := sx q h1
+      exact List.mem_append_left _ (hid ▸ hh.ids t ht)
+
+theorem allNewIds_cons (op : Op) (ops : List Op) : allNewIds (op :: ops) = op.newIds ++ allNewIds ops := by
+  simp [allNewIds]
+
+/-- the history invariant along a run in which no submitted id repeats -/
+theorem Hist.run (ops : List Op) : ∀ (s s' : State) (H S : List (TaskId × Nat)) (U : List TaskId) (out : Out),
+    Hist s H S U → (U ++ allNewIds ops).Nodup → Core.run s ops = .ok (s', out) →
+    Hist s' (H ++ sends out.msgs) (S ++ starts out.cbs) (U ++ allNewIds ops) := by
+  induction ops with
+  | nil =>
+    intro s s' H S U out hh _ h
+    simp only [Core.run] at h; cases h
+    show Hist s (H ++ []) (S ++ []) (U ++ [])
+    simp only [List.append_nil]; exact hh
+  | cons op rest ih =>
+    intro s s' H S U out hh hnd h
+    simp only [Core.run] at h
+    split at h
+    · cases h
+    · rename_i s1 o1 h1
+      split at h
+      · cases h
+      · rename_i s2 o2 h2
+        cases h
+        rw [allNewIds_cons] at hnd ⊢
+        have hfresh : ∀ x ∈ op.newIds, x ∉ U := by
+          intro x hx hu
+          rw [List.nodup_append] at hnd
+          exact hnd.2.2 x hu x (List.mem_append_left _ hx) rfl
+        have := ih s1 _ _ _ _ o2 (hh.step hfresh h1) (by rw [List.append_assoc]; exact hnd) h2
+        simpa [List.append_assoc] using this
+
+theorem Hist.of_run {ops : List Op} {s : State} {out : Out} (hr : NoIdReuse ops) (h : Core.run {} ops = .ok (s, out)) :
+    Hist s (sends out.msgs) (starts out.cbs) (allNewIds ops) := by
+  have := Hist.run ops {} s [] [] [] out Hist.init (by simpa [NoIdReuse] using hr) h
+  simpa using this
+
+
+
+/-! ### runs -/
+
+theorem run_append (pre : List Op) : ∀ (s s1 s2 : State) (o1 o2 : Out) (rest : List Op),
+    run s pre = .ok (s1, o1) → run s1 rest = .ok (s2, o2) → run s (pre ++ rest) = .ok (s2, o1.add o2) := by
+  induction pre with
+  | nil =>
+    intro s s1 s2 o1 o2 rest h1 h2
+    simp only [run] at h1; cases h1
+    simp only [List.nil_append, h2]
+    rfl
+  | cons op pre ih =>
+    intro s s1 s2 o1 o2 rest h1 h2
+    simp only [run] at h1
+    split at h1
+    · cases h1
+    · rename_i sa oa ha
+      split at h1
+      · cases h1
+      · rename_i sb ob hb
+        cases h1
+        simp only [List.cons_append, run, ha, ih _ _ _ _ _ _ hb h2]
+        simp [Out.add, List.append_assoc]
+
+/-- the side conditions of a run hold for every prefix and, in the state the prefix reaches, for the rest -/
+theorem RunOk.split {P : State → Op → Prop} (pre : List Op) : ∀ (s s1 : State) (o1 : Out) (rest : List Op),
+    RunOk P s (pre ++ rest) → run s pre = .ok (s1, o1) → RunOk P s pre ∧ RunOk P s1 rest := by
+  induction pre with
+  | nil =>
+    intro s s1 o1 rest h hr
+    simp only [run] at hr; cases hr
+    exact ⟨trivial, h⟩
+  | cons op pre ih =>
+    intro s s1 o1 rest h hr
+    simp only [run] at hr
+    split at hr
+    · cases hr
+    · rename_i sa oa ha
+      split at hr
+      · cases hr
+      · rename_i sb ob hb
+        cases hr
+        simp only [List.cons_append, RunOk, ha] at h ⊢
+        obtain ⟨a, b⟩ := ih _ _ _ _ h.2 hb
+        exact ⟨⟨h.1, a⟩, b⟩
+
+/-- along a run every task of the final map descends from a task of the initial map, or its id was submitted -/
+theorem run_desc (ops : List Op) : ∀ (s s' : State) (out : Out), (taskIds s.tasks).Nodup →
+    run s ops = .ok (s', out) →
+    ∀ t' ∈ s'.tasks, (∃ t ∈ s.tasks, TRel False False t t') ∨ t'.id ∈ allNewIds ops := by
+  induction ops with
+  | nil =>
+    intro s s' out _ h t' ht'
+    simp only [run] at h; cases h
+    exact Or.inl ⟨t', ht', TRel.refl _ _ _⟩
+  | cons op rest ih =>
+    intro s s' out hn h t' ht'
+    simp only [run] at h
+    split at h
+    · cases h
+    · rename_i s1 o1 h1
+      split at h
+      · cases h
+      · rename_i s2 o2 h2
+        cases h
+        rw [allNewIds_cons]
+        obtain ⟨e, _⟩ := step_fx hn h1
+        rcases ih _ _ _ (step_nodup hn h1) h2 t' ht' with ⟨t1, ht1, r1⟩ | h3
+        · rcases e t1 ht1 with ⟨t, ht, r⟩ | h4
+          · exact Or.inl ⟨t, ht, (r.mono id (fun f => f.elim)).trans r1⟩
+          · exact Or.inr (List.mem_append_left _ (r1.id ▸ h4))
+        · exact Or.inr (List.mem_append_right _ h3)
+
+/-- a task that stays in the map: its instance id and crash counter do not decrease -/
+theorem run_task_mono {ops : List Op} {s s' : State} {out : Out} (hn : (taskIds s.tasks).Nodup)
+    (h : run s ops = .ok (s', out)) {id : TaskId} (hid : id ∉ allNewIds ops) {t t' : Task}
+    (ht : s.task? id = some t) (ht' : s'.task? id = some t') : t.inst ≤ t'.inst ∧ t.crashes ≤ t'.crashes := by
+  rcases run_desc ops _ _ _ hn h t' (findTask_some_mem ht') with ⟨t0, ht0, r⟩ | h1
+  · have := mem_find_of_nodup hn ht0
+    rw [← r.id, findTask_some_id ht'] at this
+    have e : some t0 = some t := this.symm.trans ht
+    cases e
+    exact ⟨r.inst, r.crashes⟩
+  · exact absurd (findTask_some_id ht' ▸ h1) hid
+
+/-- one operation other than the loss of a worker by failure leaves every crash counter as it is -/
+theorem step_crashes {s s' : State} {op : Op} {o : Out} (hn : (taskIds s.tasks).Nodup)
+    (h : step s op = .ok (s', o)) {id : TaskId} (hid : id ∉ op.newIds) {t t' : Task}
+    (ht : s.task? id = some t) (ht' : s'.task? id = some t') :
+    t.inst ≤ t'.inst ∧ t.crashes ≤ t'.crashes ∧ (¬ op.isFailureLoss → t'.crashes = t.crashes) := by
+  obtain ⟨e, _⟩ := step_fx hn h
+  rcases e t' (findTask_some_mem ht') with ⟨t0, ht0, r⟩ | h1
+  · have := mem_find_of_nodup hn ht0
+    rw [← r.id, findTask_some_id ht'] at this
+    have e : some t0 = some t := this.symm.trans ht
+    cases e
+    exact ⟨r.inst, r.crashes, r.creq⟩
+  · exact absurd (findTask_some_id ht' ▸ h1) hid
+
+
 end HqModel.Core
